@@ -1,9 +1,15 @@
 (* Proofs/ParserWitness.v — concrete binding models (exported from the REAL XmlContext by
-   harness/impl_parser.py, EXTRA models `required`, `wildtail`, `anytype`, `noinitwild`,
-   `scalarwild`), the parser events the real handlers recorded for the witness documents,
-   the recorded conversion tables and the outcomes observed on the real code.
-   The same documents are replayed on the implementation by ./check C10 / C15 on every run
-   (harness/impl_parser.py WITNESS / WITNESS_EVENTS), with the live metadata. *)
+   harness/impl_parser_witness.py, EXTRA models `required`, `wildtail`, `anytype`,
+   `noinitwild`, `scalarwild` of harness/impl_parser.py), the parser events the real handlers
+   recorded for the witness documents, the recorded conversion tables and the outcomes
+   observed on the real code.  The same documents are replayed on the implementation by
+   ./check C10 / C15 on every run (WITNESS / WITNESS_EVENTS / WITNESS_C10), with the live
+   metadata.
+
+   History: the first four witnesses were refutations of C15's `outcome_documented`
+   (TypeError from cls( **params), from the bytes wrapper of StandardNode, from
+   match_namespace(None)); they were repaired in /repo (24a005e, 32d0281, 8cca284) and are
+   kept here as REGRESSION examples: model = observation, and the outcome is documented. *)
 From Coq Require Import NArith ZArith List Bool.
 From XV Require Import Base.Str Base.Eqb Model.Bind Model.Parser Model.ParserCorr Spec.Inject.
 Import ListNotations.
@@ -25,14 +31,14 @@ class R:
 Definition u_required : universe := (mk_universe [(1%N, (mk_xmeta 1%N [73;110;110;101;114]%N (Some [73;110;110;101;114]%N) false None (@nil (xvar)) (@nil (qname * list xvar)) (@nil (xvar)) [([118]%N, (mk_xvar 1%N [118]%N [118]%N [118]%N None KAttribute [TInt] None true false None None None false [115;116;114;105;99;116]%N true false None DNone (@nil (str)) (@nil (qname * xvar)) (@nil (xvar))))] (@nil (xvar)) (@nil (qname * qname)) None false)); (2%N, (mk_xmeta 2%N [82]%N (Some [82]%N) false None (@nil (xvar)) [([97]%N, [(mk_xvar 1%N [97]%N [97]%N [97]%N None KElement [TInt] None true false None None None false [115;116;114;105;99;116]%N true false None DNone (@nil (str)) (@nil (qname * xvar)) (@nil (xvar)))]); ([98]%N, [(mk_xvar 2%N [98]%N [98]%N [98]%N None KElement [TStr] None true false None None None false [115;116;114;105;99;116]%N false false None DNone (@nil (str)) (@nil (qname * xvar)) (@nil (xvar)))]); ([105]%N, [(mk_xvar 3%N [105]%N [105]%N [105]%N None KElement [(TClass 1%N)] (Some 1%N) true false None None None false [115;116;114;105;99;116]%N false false None DNone (@nil (str)) (@nil (qname * xvar)) (@nil (xvar)))])] (@nil (xvar)) (@nil (qname * xvar)) (@nil (xvar)) (@nil (qname * qname)) None false))] [(1%N, [1%N]); (2%N, [2%N])] [(1%N, (@nil (N))); (2%N, (@nil (N)))] [([73;110;110;101;114]%N, [1%N]); ([82]%N, [2%N])] (@nil (enum_def)) [(1%N, [73;110;110;101;114]%N); (2%N, [82]%N)]).
 Definition nodefault_required : list (cls * list str) := [(1%N, [[118]%N]); (2%N, [[97]%N])].
 Definition root_required : cls := 2%N.
-(* <R/>  ->  err TypeError R.__init__() missing 1 required positional argument: 'a' *)
+(* <R/>  ->  err ParserError R.__init__() missing 1 required positional argument: 'a' *)
 Definition ev_missing_required : list pevent := [PStart [82]%N (@nil (qname * str)) (@nil (option str * str)); PEnd [82]%N None None].
 Definition tbl_missing_required : conv_table := (mk_conv_table (@nil (list ptype * option str * nsmap * str * option prim)) (@nil (option str * prim * str)) [] [] dt_table).
-Definition obs_missing_required : outcome := (Err (PyTypeError TMissingArg)).
-(* <R><a>1</a><i/></R>  ->  err TypeError Inner.__init__() missing 1 required positional argument: 'v' *)
+Definition obs_missing_required : outcome := (Err ParserError).
+(* <R><a>1</a><i/></R>  ->  err ParserError Inner.__init__() missing 1 required positional argument: 'v' *)
 Definition ev_missing_required_inner : list pevent := [PStart [82]%N (@nil (qname * str)) (@nil (option str * str)); PStart [97]%N (@nil (qname * str)) (@nil (option str * str)); PEnd [97]%N (Some [49]%N) None; PStart [105]%N (@nil (qname * str)) (@nil (option str * str)); PEnd [105]%N None None].
 Definition tbl_missing_required_inner : conv_table := (mk_conv_table [([TInt], None, (@nil (option str * str)), [49]%N, (Some (PInt (1)%Z)))] (@nil (option str * prim * str)) [] [] dt_table).
-Definition obs_missing_required_inner : outcome := (Err (PyTypeError TMissingArg)).
+Definition obs_missing_required_inner : outcome := (Err ParserError).
 (* events [['end', 'R', None, None]]  ->  err IndexError pop from empty list *)
 Definition ev_end_without_start : list pevent := [PEnd [82]%N None None].
 Definition tbl_end_without_start : conv_table := (mk_conv_table (@nil (list ptype * option str * nsmap * str * option prim)) (@nil (option str * prim * str)) [] [] dt_table).
@@ -56,10 +62,10 @@ class W:
 Definition u_wildtail : universe := (mk_universe [(1%N, (mk_xmeta 1%N [67]%N (Some [67]%N) false None (@nil (xvar)) (@nil (qname * list xvar)) (@nil (xvar)) [([118]%N, (mk_xvar 1%N [118]%N [118]%N [118]%N None KAttribute [TStr] None true false None None None false [115;116;114;105;99;116]%N false false None DNone (@nil (str)) (@nil (qname * xvar)) (@nil (xvar))))] (@nil (xvar)) (@nil (qname * qname)) None false)); (2%N, (mk_xmeta 2%N [87]%N (Some [87]%N) false None (@nil (xvar)) [([99]%N, [(mk_xvar 1%N [99]%N [99]%N [99]%N None KElement [(TClass 1%N)] (Some 1%N) true false None None None false [115;116;114;105;99;116]%N false false None DNone (@nil (str)) (@nil (qname * xvar)) (@nil (xvar)))]); ([100]%N, [(mk_xvar 2%N [100]%N [100]%N [100]%N None KElement [TInt] None true false (Some FList) None None false [115;116;114;105;99;116]%N false false None DFactoryList (@nil (str)) (@nil (qname * xvar)) (@nil (xvar)))])] [(mk_xvar 3%N [97;110;121]%N [97;110;121]%N [123;33;125;97;110;121]%N None KWildcard [TObject] None true false None None None false [115;116;114;105;99;116]%N false false None DNone [[33]%N] (@nil (qname * xvar)) (@nil (xvar)))] (@nil (qname * xvar)) (@nil (xvar)) (@nil (qname * qname)) None false))] [(1%N, [1%N]); (2%N, [2%N])] [(1%N, (@nil (N))); (2%N, (@nil (N)))] [([67]%N, [1%N]); ([87]%N, [2%N])] (@nil (enum_def)) [(1%N, [67]%N); (2%N, [87]%N)]).
 Definition nodefault_wildtail : list (cls * list str) := (@nil (cls * list str)).
 Definition root_wildtail : cls := 2%N.
-(* <W><c/>tail</W>  ->  err TypeError 'NoneType' object is not subscriptable *)
+(* <W><c/>tail</W>  ->  ok None None *)
 Definition ev_tail_none_qname : list pevent := [PStart [87]%N (@nil (qname * str)) (@nil (option str * str)); PStart [99]%N (@nil (qname * str)) (@nil (option str * str)); PEnd [99]%N None (Some [116;97;105;108]%N); PEnd [87]%N None None].
 Definition tbl_tail_none_qname : conv_table := (mk_conv_table (@nil (list ptype * option str * nsmap * str * option prim)) (@nil (option str * prim * str)) [] [] dt_table).
-Definition obs_tail_none_qname : outcome := (Err (PyTypeError TNoneQname)).
+Definition obs_tail_none_qname : outcome := (Ok (VObj 2%N [([99]%N, (VObj 1%N [([118]%N, VNone)])); ([100]%N, (VList false (@nil (value)))); ([97;110;121]%N, VNone)]) [WUnassigned None]).
 (* ---- model `anytype`:
 
 @dataclass
@@ -71,14 +77,14 @@ class T:
 Definition u_anytype : universe := (mk_universe [(1%N, (mk_xmeta 1%N [84]%N (Some [84]%N) false None (@nil (xvar)) [([120]%N, [(mk_xvar 1%N [120]%N [120]%N [120]%N None KElement [TObject] None true false None None None true [115;116;114;105;99;116]%N false false None DNone (@nil (str)) (@nil (qname * xvar)) (@nil (xvar)))]); ([121]%N, [(mk_xvar 2%N [121]%N [121]%N [121]%N None KElement [TObject] None true false (Some FList) None None true [115;116;114;105;99;116]%N false true None DFactoryList (@nil (str)) (@nil (qname * xvar)) (@nil (xvar)))])] [(mk_xvar 3%N [119]%N [119]%N [119]%N None KWildcard [TObject] None true false (Some FList) None None false [115;116;114;105;99;116]%N false false None DFactoryList (@nil (str)) (@nil (qname * xvar)) (@nil (xvar)))] (@nil (qname * xvar)) (@nil (xvar)) (@nil (qname * qname)) None false))] [(1%N, [1%N])] [(1%N, (@nil (N)))] [([84]%N, [1%N])] (@nil (enum_def)) [(1%N, [84]%N)]).
 Definition nodefault_anytype : list (cls * list str) := (@nil (cls * list str)).
 Definition root_anytype : cls := 1%N.
-(* <T xmlns:xs="http://www.w3.org/2001/XMLSchema" xmlns:xsi="http://www.w3.org/2001/XMLSchema-instance"><x xsi:type="xs:hexBinary"/></T>  ->  err TypeError string argument without an encoding *)
-Definition ev_bytes_wrapper_empty : list pevent := [PStartNs (Some [120;115]%N) [104;116;116;112;58;47;47;119;119;119;46;119;51;46;111;114;103;47;50;48;48;49;47;88;77;76;83;99;104;101;109;97]%N; PStartNs (Some [120;115;105]%N) [104;116;116;112;58;47;47;119;119;119;46;119;51;46;111;114;103;47;50;48;48;49;47;88;77;76;83;99;104;101;109;97;45;105;110;115;116;97;110;99;101]%N; PStart [84]%N (@nil (qname * str)) [((Some [120;115]%N), [104;116;116;112;58;47;47;119;119;119;46;119;51;46;111;114;103;47;50;48;48;49;47;88;77;76;83;99;104;101;109;97]%N); ((Some [120;115;105]%N), [104;116;116;112;58;47;47;119;119;119;46;119;51;46;111;114;103;47;50;48;48;49;47;88;77;76;83;99;104;101;109;97;45;105;110;115;116;97;110;99;101]%N)]; PStart [120]%N [([123;104;116;116;112;58;47;47;119;119;119;46;119;51;46;111;114;103;47;50;48;48;49;47;88;77;76;83;99;104;101;109;97;45;105;110;115;116;97;110;99;101;125;116;121;112;101]%N, [120;115;58;104;101;120;66;105;110;97;114;121]%N)] [((Some [120;115]%N), [104;116;116;112;58;47;47;119;119;119;46;119;51;46;111;114;103;47;50;48;48;49;47;88;77;76;83;99;104;101;109;97]%N); ((Some [120;115;105]%N), [104;116;116;112;58;47;47;119;119;119;46;119;51;46;111;114;103;47;50;48;48;49;47;88;77;76;83;99;104;101;109;97;45;105;110;115;116;97;110;99;101]%N)]; PEnd [120]%N None None].
+(* <T xmlns:xs="http://www.w3.org/2001/XMLSchema" xmlns:xsi="http://www.w3.org/2001/XMLSchema-instance"><x xsi:type="xs:hexBinary"/></T>  ->  ok None None *)
+Definition ev_bytes_wrapper_empty : list pevent := [PStartNs (Some [120;115]%N) [104;116;116;112;58;47;47;119;119;119;46;119;51;46;111;114;103;47;50;48;48;49;47;88;77;76;83;99;104;101;109;97]%N; PStartNs (Some [120;115;105]%N) [104;116;116;112;58;47;47;119;119;119;46;119;51;46;111;114;103;47;50;48;48;49;47;88;77;76;83;99;104;101;109;97;45;105;110;115;116;97;110;99;101]%N; PStart [84]%N (@nil (qname * str)) [((Some [120;115]%N), [104;116;116;112;58;47;47;119;119;119;46;119;51;46;111;114;103;47;50;48;48;49;47;88;77;76;83;99;104;101;109;97]%N); ((Some [120;115;105]%N), [104;116;116;112;58;47;47;119;119;119;46;119;51;46;111;114;103;47;50;48;48;49;47;88;77;76;83;99;104;101;109;97;45;105;110;115;116;97;110;99;101]%N)]; PStart [120]%N [([123;104;116;116;112;58;47;47;119;119;119;46;119;51;46;111;114;103;47;50;48;48;49;47;88;77;76;83;99;104;101;109;97;45;105;110;115;116;97;110;99;101;125;116;121;112;101]%N, [120;115;58;104;101;120;66;105;110;97;114;121]%N)] [((Some [120;115]%N), [104;116;116;112;58;47;47;119;119;119;46;119;51;46;111;114;103;47;50;48;48;49;47;88;77;76;83;99;104;101;109;97]%N); ((Some [120;115;105]%N), [104;116;116;112;58;47;47;119;119;119;46;119;51;46;111;114;103;47;50;48;48;49;47;88;77;76;83;99;104;101;109;97;45;105;110;115;116;97;110;99;101]%N)]; PEnd [120]%N None None; PEnd [84]%N None None].
 Definition tbl_bytes_wrapper_empty : conv_table := (mk_conv_table [([TQName], None, [((Some [120;115]%N), [104;116;116;112;58;47;47;119;119;119;46;119;51;46;111;114;103;47;50;48;48;49;47;88;77;76;83;99;104;101;109;97]%N); ((Some [120;115;105]%N), [104;116;116;112;58;47;47;119;119;119;46;119;51;46;111;114;103;47;50;48;48;49;47;88;77;76;83;99;104;101;109;97;45;105;110;115;116;97;110;99;101]%N)], [120;115;58;104;101;120;66;105;110;97;114;121]%N, (Some (PQName [123;104;116;116;112;58;47;47;119;119;119;46;119;51;46;111;114;103;47;50;48;48;49;47;88;77;76;83;99;104;101;109;97;125;104;101;120;66;105;110;97;114;121]%N)))] (@nil (option str * prim * str)) [] [] dt_table).
-Definition obs_bytes_wrapper_empty : outcome := (Err (PyTypeError TBytesWrapper)).
-(* <T xmlns:xs="http://www.w3.org/2001/XMLSchema" xmlns:xsi="http://www.w3.org/2001/XMLSchema-instance"><x xsi:type="xs:base64Binary">z</x></T>  ->  err TypeError string argument without an encoding *)
-Definition ev_bytes_wrapper_unconvertible : list pevent := [PStartNs (Some [120;115]%N) [104;116;116;112;58;47;47;119;119;119;46;119;51;46;111;114;103;47;50;48;48;49;47;88;77;76;83;99;104;101;109;97]%N; PStartNs (Some [120;115;105]%N) [104;116;116;112;58;47;47;119;119;119;46;119;51;46;111;114;103;47;50;48;48;49;47;88;77;76;83;99;104;101;109;97;45;105;110;115;116;97;110;99;101]%N; PStart [84]%N (@nil (qname * str)) [((Some [120;115]%N), [104;116;116;112;58;47;47;119;119;119;46;119;51;46;111;114;103;47;50;48;48;49;47;88;77;76;83;99;104;101;109;97]%N); ((Some [120;115;105]%N), [104;116;116;112;58;47;47;119;119;119;46;119;51;46;111;114;103;47;50;48;48;49;47;88;77;76;83;99;104;101;109;97;45;105;110;115;116;97;110;99;101]%N)]; PStart [120]%N [([123;104;116;116;112;58;47;47;119;119;119;46;119;51;46;111;114;103;47;50;48;48;49;47;88;77;76;83;99;104;101;109;97;45;105;110;115;116;97;110;99;101;125;116;121;112;101]%N, [120;115;58;98;97;115;101;54;52;66;105;110;97;114;121]%N)] [((Some [120;115]%N), [104;116;116;112;58;47;47;119;119;119;46;119;51;46;111;114;103;47;50;48;48;49;47;88;77;76;83;99;104;101;109;97]%N); ((Some [120;115;105]%N), [104;116;116;112;58;47;47;119;119;119;46;119;51;46;111;114;103;47;50;48;48;49;47;88;77;76;83;99;104;101;109;97;45;105;110;115;116;97;110;99;101]%N)]; PEnd [120]%N (Some [122]%N) None].
+Definition obs_bytes_wrapper_empty : outcome := (Ok (VObj 1%N [([120]%N, (VP (PStr (@nil N)))); ([121]%N, (VList false (@nil (value)))); ([119]%N, (VList false (@nil (value))))]) (@nil (warning))).
+(* <T xmlns:xs="http://www.w3.org/2001/XMLSchema" xmlns:xsi="http://www.w3.org/2001/XMLSchema-instance"><x xsi:type="xs:base64Binary">z</x></T>  ->  ok None None *)
+Definition ev_bytes_wrapper_unconvertible : list pevent := [PStartNs (Some [120;115]%N) [104;116;116;112;58;47;47;119;119;119;46;119;51;46;111;114;103;47;50;48;48;49;47;88;77;76;83;99;104;101;109;97]%N; PStartNs (Some [120;115;105]%N) [104;116;116;112;58;47;47;119;119;119;46;119;51;46;111;114;103;47;50;48;48;49;47;88;77;76;83;99;104;101;109;97;45;105;110;115;116;97;110;99;101]%N; PStart [84]%N (@nil (qname * str)) [((Some [120;115]%N), [104;116;116;112;58;47;47;119;119;119;46;119;51;46;111;114;103;47;50;48;48;49;47;88;77;76;83;99;104;101;109;97]%N); ((Some [120;115;105]%N), [104;116;116;112;58;47;47;119;119;119;46;119;51;46;111;114;103;47;50;48;48;49;47;88;77;76;83;99;104;101;109;97;45;105;110;115;116;97;110;99;101]%N)]; PStart [120]%N [([123;104;116;116;112;58;47;47;119;119;119;46;119;51;46;111;114;103;47;50;48;48;49;47;88;77;76;83;99;104;101;109;97;45;105;110;115;116;97;110;99;101;125;116;121;112;101]%N, [120;115;58;98;97;115;101;54;52;66;105;110;97;114;121]%N)] [((Some [120;115]%N), [104;116;116;112;58;47;47;119;119;119;46;119;51;46;111;114;103;47;50;48;48;49;47;88;77;76;83;99;104;101;109;97]%N); ((Some [120;115;105]%N), [104;116;116;112;58;47;47;119;119;119;46;119;51;46;111;114;103;47;50;48;48;49;47;88;77;76;83;99;104;101;109;97;45;105;110;115;116;97;110;99;101]%N)]; PEnd [120]%N (Some [122]%N) None; PEnd [84]%N None None].
 Definition tbl_bytes_wrapper_unconvertible : conv_table := (mk_conv_table [([TQName], None, [((Some [120;115]%N), [104;116;116;112;58;47;47;119;119;119;46;119;51;46;111;114;103;47;50;48;48;49;47;88;77;76;83;99;104;101;109;97]%N); ((Some [120;115;105]%N), [104;116;116;112;58;47;47;119;119;119;46;119;51;46;111;114;103;47;50;48;48;49;47;88;77;76;83;99;104;101;109;97;45;105;110;115;116;97;110;99;101]%N)], [120;115;58;98;97;115;101;54;52;66;105;110;97;114;121]%N, (Some (PQName [123;104;116;116;112;58;47;47;119;119;119;46;119;51;46;111;114;103;47;50;48;48;49;47;88;77;76;83;99;104;101;109;97;125;98;97;115;101;54;52;66;105;110;97;114;121]%N))); ([TBytes], (Some [98;97;115;101;54;52]%N), [((Some [120;115]%N), [104;116;116;112;58;47;47;119;119;119;46;119;51;46;111;114;103;47;50;48;48;49;47;88;77;76;83;99;104;101;109;97]%N); ((Some [120;115;105]%N), [104;116;116;112;58;47;47;119;119;119;46;119;51;46;111;114;103;47;50;48;48;49;47;88;77;76;83;99;104;101;109;97;45;105;110;115;116;97;110;99;101]%N)], [122]%N, None)] (@nil (option str * prim * str)) [] [] dt_table).
-Definition obs_bytes_wrapper_unconvertible : outcome := (Err (PyTypeError TBytesWrapper)).
+Definition obs_bytes_wrapper_unconvertible : outcome := (Ok (VObj 1%N [([120]%N, (VP (PStr [122]%N))); ([121]%N, (VList false (@nil (value)))); ([119]%N, (VList false (@nil (value))))]) [WConv 1%N [120]%N]).
 (* ---- model `noinitwild`:
 
 @dataclass
@@ -89,10 +95,10 @@ class NW:
 Definition u_noinitwild : universe := (mk_universe [(1%N, (mk_xmeta 1%N [78;87]%N (Some [78;87]%N) false None (@nil (xvar)) [([97]%N, [(mk_xvar 1%N [97]%N [97]%N [97]%N None KElement [TInt] None true false None None None false [115;116;114;105;99;116]%N false false None DNone (@nil (str)) (@nil (qname * xvar)) (@nil (xvar)))])] [(mk_xvar 2%N [97;110;121]%N [97;110;121]%N [97;110;121]%N None KWildcard [TObject] None false false None None None false [115;116;114;105;99;116]%N false false None DNone (@nil (str)) (@nil (qname * xvar)) (@nil (xvar)))] (@nil (qname * xvar)) (@nil (xvar)) (@nil (qname * qname)) None false))] [(1%N, [1%N])] [(1%N, (@nil (N)))] [([78;87]%N, [1%N])] (@nil (enum_def)) [(1%N, [78;87]%N)]).
 Definition nodefault_noinitwild : list (cls * list str) := (@nil (cls * list str)).
 Definition root_noinitwild : cls := 1%N.
-(* <NW><zz/></NW>  ->  err TypeError NW.__init__() got an unexpected keyword argument 'any' *)
+(* <NW><zz/></NW>  ->  err ParserError NW.__init__() got an unexpected keyword argument 'any' *)
 Definition ev_unexpected_keyword : list pevent := [PStart [78;87]%N (@nil (qname * str)) (@nil (option str * str)); PStart [122;122]%N (@nil (qname * str)) (@nil (option str * str)); PEnd [122;122]%N None None; PEnd [78;87]%N None None].
 Definition tbl_unexpected_keyword : conv_table := (mk_conv_table (@nil (list ptype * option str * nsmap * str * option prim)) (@nil (option str * prim * str)) [] [] dt_table).
-Definition obs_unexpected_keyword : outcome := (Err (PyTypeError TUnexpectedKw)).
+Definition obs_unexpected_keyword : outcome := (Err ParserError).
 (* ---- model `scalarwild`:
 
 @dataclass
@@ -115,18 +121,20 @@ Definition obs_attr_captured : outcome := (Ok (VObj 1%N [([97]%N, VNone); ([97;1
 (* ---------------------------------------------------------------- the model reproduces the observations *)
 Definition cfg_of (a b c : bool) (nd : list (cls * list str)) : pconfig := mk_pconfig a b c nd.
 
+(* fixed in /repo 24a005e: a missing required field is a ParserError *)
 Example w_missing_required :
   parse (cfg_of false false false nodefault_required) (conv_of_table tbl_missing_required) u_required
-        (Some root_required) ev_missing_required = Err (PyTypeError TMissingArg)
-  /\ obs_missing_required = Err (PyTypeError TMissingArg).
+        (Some root_required) ev_missing_required = Err ParserError
+  /\ obs_missing_required = Err ParserError.
 Proof. split; vm_compute; reflexivity. Qed.
 
 Example w_missing_required_inner :
   parse (cfg_of false false false nodefault_required) (conv_of_table tbl_missing_required_inner) u_required
-        (Some root_required) ev_missing_required_inner = Err (PyTypeError TMissingArg)
-  /\ obs_missing_required_inner = Err (PyTypeError TMissingArg).
+        (Some root_required) ev_missing_required_inner = Err ParserError
+  /\ obs_missing_required_inner = Err ParserError.
 Proof. split; vm_compute; reflexivity. Qed.
 
+(* still open (C15-F5): an `end` without an open element on a user supplied event list *)
 Example w_end_without_start :
   parse (cfg_of true false false nodefault_required) (conv_of_table tbl_end_without_start) u_required
         (Some root_required) ev_end_without_start = Err PyIndexError
@@ -139,32 +147,35 @@ Example w_end_after_root :
   /\ obs_end_after_root = Err PyIndexError.
 Proof. split; vm_compute; reflexivity. Qed.
 
+(* fixed in /repo 8cca284: text after a class-typed child, class with a wildcard field *)
 Example w_tail_none_qname :
-  parse (cfg_of false false false nodefault_wildtail) (conv_of_table tbl_tail_none_qname) u_wildtail
-        (Some root_wildtail) ev_tail_none_qname = Err (PyTypeError TNoneQname)
-  /\ obs_tail_none_qname = Err (PyTypeError TNoneQname).
+  outcome_eqb (parse (cfg_of false false false nodefault_wildtail) (conv_of_table tbl_tail_none_qname) u_wildtail
+                     (Some root_wildtail) ev_tail_none_qname) obs_tail_none_qname = true
+  /\ outcome_documented obs_tail_none_qname = true.
 Proof. split; vm_compute; reflexivity. Qed.
 
+(* fixed in /repo 32d0281: xsi:type xs:hexBinary / xs:base64Binary, empty or unconvertible text *)
 Example w_bytes_wrapper_empty :
-  parse (cfg_of false false false nodefault_anytype) (conv_of_table tbl_bytes_wrapper_empty) u_anytype
-        (Some root_anytype) ev_bytes_wrapper_empty = Err (PyTypeError TBytesWrapper)
-  /\ obs_bytes_wrapper_empty = Err (PyTypeError TBytesWrapper).
+  outcome_eqb (parse (cfg_of false false false nodefault_anytype) (conv_of_table tbl_bytes_wrapper_empty) u_anytype
+                     (Some root_anytype) ev_bytes_wrapper_empty) obs_bytes_wrapper_empty = true
+  /\ outcome_documented obs_bytes_wrapper_empty = true.
 Proof. split; vm_compute; reflexivity. Qed.
 
 Example w_bytes_wrapper_unconvertible :
-  parse (cfg_of false false false nodefault_anytype) (conv_of_table tbl_bytes_wrapper_unconvertible) u_anytype
-        (Some root_anytype) ev_bytes_wrapper_unconvertible = Err (PyTypeError TBytesWrapper)
-  /\ obs_bytes_wrapper_unconvertible = Err (PyTypeError TBytesWrapper).
+  outcome_eqb (parse (cfg_of false false false nodefault_anytype) (conv_of_table tbl_bytes_wrapper_unconvertible) u_anytype
+                     (Some root_anytype) ev_bytes_wrapper_unconvertible) obs_bytes_wrapper_unconvertible = true
+  /\ outcome_documented obs_bytes_wrapper_unconvertible = true.
 Proof. split; vm_compute; reflexivity. Qed.
 
+(* fixed in /repo 24a005e: a wildcard field declared init=False *)
 Example w_unexpected_keyword :
   parse (cfg_of false false false nodefault_noinitwild) (conv_of_table tbl_unexpected_keyword) u_noinitwild
-        (Some root_noinitwild) ev_unexpected_keyword = Err (PyTypeError TUnexpectedKw)
-  /\ obs_unexpected_keyword = Err (PyTypeError TUnexpectedKw).
+        (Some root_noinitwild) ev_unexpected_keyword = Err ParserError
+  /\ obs_unexpected_keyword = Err ParserError.
 Proof. split; vm_compute; reflexivity. Qed.
 
-(* C10: an unknown attribute on an element bound to a class with a scalar wildcard field is
-   NOT dropped: it lands in the AnyElement built by bind_wild_text *)
+(* C10 (open, C10-F1): an unknown attribute on an element bound to a class with a scalar
+   wildcard field is NOT dropped: it lands in the AnyElement built by bind_wild_text *)
 Example w_attr_captured :
   outcome_eqb (parse (cfg_of false false false nodefault_scalarwild) (conv_of_table tbl_attr_captured) u_scalarwild
                      (Some root_scalarwild) ev_attr_captured) obs_attr_captured = true
